@@ -89,7 +89,7 @@ def probe_event(cls_name: str, d: Path, name: str, km, tk, what: str) -> Dict[st
     ok, vw, committed, exc = try_open(CLS[cls_name], files, km, tk)
     return {"op": "probe", "what": what, "cls": cls_name, "ok": ok, "exc": exc, "disk": disk, "mfd": mfd,
             "nb": nb, "h": dict(CLOSED), "vw": vw, "timeout": False,
-            "a": {"op": "probe"}, "merged_vw": "", "meta_before": "", "meta_after": "", "chain": []}
+            "a": {"op": "probe"}, "merged_vw": "", "meta_before": "", "meta_after": "", "chain": [], "listed": [], "all_records": [], "found": []}
 
 
 def rewrite_ub(path: Path, edit):
@@ -268,12 +268,29 @@ def crash_event(cls_name, d: Path, name: str, km, tk, frozen: Dict[str, str], cv
     sub_ok, sub_vw, _, sub_exc = try_open(IH5Record, committed_files, km, tk) if committed_files else (False, "", False, "nofiles")
     allf = [protolib.container_path(d, c["fn"]) for c in disk]
     full_ok, full_vw, full_comm, full_exc = try_open(CLS[cls_name], allf, km, tk)
+    # a recovery attempt after the crash: continue writing from the committed containers only.  The
+    # interrupted patch file is in the way, so this may well be refused -- but it must not damage anything.
+    if committed_files and len(allf) > len(committed_files):
+        gc.collect()
+        try:
+            r_ = CLS[cls_name](list(committed_files), "r+")
+            r_.close(commit=False)
+        except Exception:
+            pass
+        gc.collect()
+        changed = [f for f, dig in frozen.items()
+                   if not (d / f).exists() or hashlib.sha256((d / f).read_bytes()).hexdigest() != dig]
+        frozen_ok = not changed
+        if frozen_ok:
+            sub2 = try_open(IH5Record, committed_files, km, tk)
+            if not sub2[0] or sub2[1] != sub_vw:
+                sub_ok, sub_vw, sub_exc = False, sub2[1], "after recovery attempt: " + sub2[3]
     return {"op": "crash_probe", "what": what, "cls": cls_name, "frozen_ok": frozen_ok,
             "sub_ok": sub_ok, "sub_vw": sub_vw, "sub_exc": sub_exc,
             "full_ok": full_ok, "full_vw": full_vw, "full_committed": full_comm, "full_exc": full_exc,
             "changed": changed, "full_sub_vw": sub_vw, "cvw": cvw, "nvw": nvw, "cvws": cvws or [cvw],
             "ok": True, "exc": "", "disk": disk, "mfd": mfd, "nb": nb, "h": dict(CLOSED), "vw": "",
-            "timeout": False, "a": {"op": "crash_probe"}, "merged_vw": "", "meta_before": "", "meta_after": "", "chain": []}
+            "timeout": False, "a": {"op": "crash_probe"}, "merged_vw": "", "meta_before": "", "meta_after": "", "chain": [], "listed": [], "all_records": [], "found": []}
 
 
 def file_digests(d: Path) -> Dict[str, str]:
